@@ -514,8 +514,9 @@ class Inliner:
                         continue
                     mapping, prologue, suffix = b
                     body = self.instantiate(fn, mapping)
-                    if len(body) == 1 and isinstance(body[0], ast.Return) and body[0].value is not None and not prologue:
-                        rep = body[0].value
+                    expr_form = _as_expression(body) if not prologue else None
+                    if expr_form is not None:
+                        rep = expr_form
                         if _replace_node(st, n, rep):
                             self.inlined_calls.append(f"{qualname_of(fn)} <- expr {ast.unparse(n)[:50]}")
                             changed = True
@@ -628,3 +629,24 @@ def _forward_return(stmts, result, ret_stmt):
 
     out = [R().visit(s) for s in stmts]
     return out
+
+
+def _as_expression(body):
+    """A helper body made only of `if c: return a` ... `return b` is the conditional expression a if c else (...) else b."""
+    if not body:
+        return None
+    st = body[0]
+    if isinstance(st, ast.Return):
+        return st.value if st.value is not None and len(body) == 1 else None
+    if isinstance(st, ast.If) and len(st.body) == 1 and isinstance(st.body[0], ast.Return) and st.body[0].value is not None:
+        if st.orelse:
+            rest = _as_expression(list(st.orelse)) if len(body) == 1 else None
+        else:
+            rest = _as_expression(body[1:])
+        if rest is None:
+            return None
+        e = ast.IfExp(test=st.test, body=st.body[0].value, orelse=rest)
+        ast.copy_location(e, st)
+        _set_module(e, getattr(st, "_module", None))
+        return e
+    return None
